@@ -32,7 +32,7 @@ theorem c06_source_facts :
     IpcHub.Gen.demuxProcessConds = ["if r != nil", "for !demuxer.closed", "if p == nil", "if !demuxer.closed", "switch packet.Channel", "case ChannelVideo", "case ChannelVideoControl", "case ChannelAudio", "case ChannelAudioControl", "if err != nil"] ∧
     IpcHub.Gen.aacEntry = "aacdp.depacketizeFor2ByteAUHeader(packet)" ∧
     IpcHub.Gen.h264StapaHeaderAssigns = [] ∧
-    IpcHub.Gen.h264FuAHeaderAssigns = ["frame.Payload[0] = (header & 0x60) | (fuHeader & 0x1F)"] ∧
+    IpcHub.Gen.h264FuAHeaderAssigns = ["frame.Payload[0] = (header & 0xE0) | (fuHeader & 0x1F)"] ∧
     IpcHub.Gen.h265StapHeaderAssigns = [] ∧
     IpcHub.Gen.h265FuHeaderAssigns = ["frame.Payload[0] = (payload[0] & 0x81) | (fuHeader&0x3f)<<1", "frame.Payload[1] = payload[1]"] ∧
     IpcHub.Gen.h264StapaOffsets = ["off := 1", "off += 2", "off += int(nalSize)"] ∧
@@ -47,6 +47,7 @@ theorem c06_source_facts :
     IpcHub.Gen.stapaChecked = true ∧
     IpcHub.Gen.stapaRewritesNri = false ∧
     IpcHub.Gen.fuaNeedsStart = true ∧
+    IpcHub.Gen.fuaKeepsF = true ∧
     IpcHub.Gen.apChecked = true ∧
     IpcHub.Gen.aacChecked = true ∧
     IpcHub.Gen.srChecked = true ∧
@@ -88,7 +89,7 @@ theorem c06_source_facts :
 /-- the configuration of the model derived from those facts is the repaired one -/
 theorem c06_gen_cfg :
     genCfg.h264Min = 1 ∧ genCfg.stapaChecked = true ∧ genCfg.stapaRewritesNri = false ∧
-    genCfg.fuaMin = 3 ∧ genCfg.fuaNeedsStart = true ∧ genCfg.h265Min = 2 ∧ genCfg.apChecked = true ∧
+    genCfg.fuaMin = 3 ∧ genCfg.fuaNeedsStart = true ∧ genCfg.fuaKeepsF = true ∧ genCfg.h265Min = 2 ∧ genCfg.apChecked = true ∧
     genCfg.fuMin = 3 ∧ genCfg.aacChecked = true ∧ genCfg.srChecked = true ∧
     genCfg.psUntilReady264 = true ∧ genCfg.psUntilReady265 = true ∧
     genCfg.aacIndexLength = 3 ∧ genCfg.samplesPerFrame = 1024 ∧ genCfg.ptsDelay = 500000000 := by
@@ -96,10 +97,10 @@ theorem c06_gen_cfg :
 
 /-- the guards the round trip needs are those of the current source -/
 theorem c06_round_cfg : RoundCfg genCfg := by
-  refine ⟨?_, ?_, ?_, ?_, ?_⟩ <;> decide
+  refine ⟨?_, ?_, ?_, ?_, ?_, ?_⟩ <;> decide
 
 /-- C06, H.264 (RFC 6184 single NAL unit / STAP-A / FU-A).  For EVERY list of packetisation
-    decisions `items` of a sender — any NAL units (type 1…23, F = 0, any size ≥ 1 byte; aggregated
+    decisions `items` of a sender — any NAL units (type 1…23, F bit clear or set, any size ≥ 1 byte; aggregated
     ones < 64 KiB), any aggregation grouping, any fragment sizes (≥ 2 non-empty fragments), any
     marker bits, any initial sequence number (UInt16 arithmetic: wrap included), any RTP
     timestamps — and EVERY depacketizer state whose metadata is ready (parameter sets known; the
@@ -111,18 +112,18 @@ theorem c06_round_cfg : RoundCfg genCfg := by
     are excluded — the code drops them on purpose (open known finding `h264-filler-dropped`,
     `c06_filler_dropped_witness`). -/
 theorem c06_h264_roundtrip_partial (spsOk : Bytes → Bool) (items : List Item) (st : VSt) (seq0 : UInt16)
-    (hr : st.ready = true) (hl : ∀ it ∈ items, legal264 it = true ∧ itemNoFiller it = true) :
+    (hr : st.ready = true) (hl : ∀ it ∈ items, legal264F it = true ∧ itemNoFiller it = true) :
     (vRun genCfg spsOk .h264 st (packets264 seq0 items)).2 = ((units items).map (frameOf st.base), .ok) := by
   obtain ⟨st', h, _⟩ := h264_roundtrip genCfg c06_round_cfg spsOk items st seq0 hr hl
   rw [h]
 
 /-- non-vacuity: a stream with all three packetisation modes (SPS+PPS+SEI aggregated, an IDR slice
-    in 3 fragments, a 1-byte end-of-sequence unit as single NAL unit packet) meets the hypotheses,
+    with the F bit set in 3 fragments, a 1-byte end-of-sequence unit as single NAL unit packet) meets the hypotheses,
     and the theorem's conclusion evaluates to the three + one + one units -/
 example :
     let items : List Item := [.agg 9000 false [[0x67, 0x42, 0x00], [0x68, 0xce], [0x06, 0x05]],
-      .frag 9000 true [0x65, 1, 2, 3, 4, 5, 6, 7] [2, 3], .single 12000 true [0x0a]]
-    (∀ it ∈ items, legal264 it = true ∧ itemNoFiller it = true) ∧
+      .frag 9000 true [0xe5, 1, 2, 3, 4, 5, 6, 7] [2, 3], .single 12000 true [0x0a]]
+    (∀ it ∈ items, legal264F it = true ∧ itemNoFiller it = true) ∧
     (vRun genCfg (fun _ => false) .h264 { ready := true, frags := [⟨7, 7, false, [0x5c, 0x05, 9]⟩] } (packets264 65534 items)).2.1.length = 5 := by
   decide
 
@@ -140,7 +141,7 @@ example :
     exercised by the harness (judge `judgeSpans`, multiset bounds per unit) but not proved. -/
 theorem c06_loss_never_splices_h264_partial (spsOk : Bytes → Bool) (items : List Item) (st : VSt) (seq0 : UInt16)
     (arr : List Pkt) (hr : st.ready = true) (hf : st.frags = [])
-    (hl : ∀ it ∈ items, legal264 it = true ∧ itemNoFiller it = true)
+    (hl : ∀ it ∈ items, legal264F it = true ∧ itemNoFiller it = true)
     (hn : totalPkts payloads264 items ≤ 65536) (hsub : arr.Sublist (packets264 seq0 items)) :
     ∃ arrs, Lossy payloads264 seq0 items arrs ∧ arr = arrs.flatten ∧
       (vRun genCfg spsOk .h264 st arr).2 = ((survivors payloads264 seq0 items arrs).map (frameOf st.base), .ok) := by
@@ -155,7 +156,7 @@ example :
     let items : List Item := [.frag 3000 true [0x41, 1, 2, 3, 4] [1, 1], .frag 6000 true [0x65, 5, 6, 7] [2], .single 9000 true [0x41, 9]]
     let ps := packets264 65534 items
     let arrs : List (List Pkt) := [[ps[0]!, ps[2]!], [ps[3]!, ps[4]!], []]
-    (∀ it ∈ items, legal264 it = true ∧ itemNoFiller it = true) ∧ totalPkts payloads264 items ≤ 65536 ∧
+    (∀ it ∈ items, legal264F it = true ∧ itemNoFiller it = true) ∧ totalPkts payloads264 items ≤ 65536 ∧
     arrs.flatten.Sublist ps ∧
     survivors payloads264 65534 items arrs = [(6000, [0x65, 5, 6, 7])] ∧
     (vRun genCfg (fun _ => false) .h264 { ready := true } arrs.flatten).2.1 = [⟨false, 6000, 0, [0x65, 5, 6, 7]⟩] := by
@@ -238,6 +239,18 @@ theorem c06_h264_fua_start_loss_witness :
       = [⟨false, 1000, 0, [0x41, 0xbb, 0xcc, 0xdd]⟩] ∧
     (vRun genCfg (fun _ => true) .h264 { ready := true }
         [pk 2 1000 [0x5c, 0x01, 0xbb, 0xcc], pk 3 1000 [0x5c, 0x41, 0xdd]]).2.1 = [] := by
+  decide
+
+/-- FIXED in round 2 (cbc871f): `depacketizeFuA` rebuilt the NAL header from the NRI bits of the FU
+    indicator only (`header & 0x60`).  A unit whose forbidden_zero_bit is set (RFC 6184 §5.3: a
+    sender / middlebox flags a damaged unit) came out of FU-A reassembly with the bit cleared —
+    `e5 01 02 03` as `65 01 02 03`, not the sender's bytes; single NAL unit packets and STAP-A kept it.
+    Replayed: corpus/C06/fua-f-bit.case -/
+theorem c06_fua_f_bit_witness :
+    (vRun { genCfg with fuaKeepsF := false } (fun _ => true) .h264 { ready := true }
+        (packets264 7 [.frag 1000 true [0xe5, 1, 2, 3] [1]])).2.1 = [⟨false, 1000, 0, [0x65, 1, 2, 3]⟩] ∧
+    (vRun genCfg (fun _ => true) .h264 { ready := true }
+        (packets264 7 [.frag 1000 true [0xe5, 1, 2, 3] [1]])).2.1 = [⟨false, 1000, 0, [0xe5, 1, 2, 3]⟩] := by
   decide
 
 /-- the pinned tree rewrote the NRI bits of every NAL unit of a STAP-A with the STAP-A header's:
